@@ -11,6 +11,7 @@ import (
 	"berty.tech/go-orbit-db/events"
 	"berty.tech/go-orbit-db/iface"
 	"berty.tech/go-orbit-db/stores"
+	cid "github.com/ipfs/go-cid"
 	"github.com/libp2p/go-libp2p/p2p/host/eventbus"
 
 	"verifharness/fw"
@@ -21,7 +22,7 @@ func init() {
 	fw.Register(&fw.Property{
 		ID:    "C16",
 		Level: "exploration",
-		Rule: "cases = one store receiving 50-400 sequential local writes and 5-30 merged remote batches while 1-4 subscribers of each kind (event-bus subscription with small and default buffers; legacy Subscribe; legacy GlobalChannel) read with pacing in {eager, random sleeps, stall until the 16-slot buffers are full then drain, drain one then stall}; the legacy emitter's schedule points are driven by a handler in {no-op, PRNG delay, hold the dequeuing goroutine until the bus goroutine has offered the next event}. A lockstep sub-mode (writer waits for the subscriber's acknowledgement) makes the state at receipt stable so that the view can be compared with the replay. " +
+		Rule: "cases = one store receiving 50-400 sequential local writes and 5-30 merged remote batches while 1-4 subscribers of each kind (event-bus subscription with small and default buffers; legacy Subscribe; legacy GlobalChannel) read with pacing in {eager, random sleeps, stall until the 16-slot buffers are full then drain, drain one then stall, (legacy, >= 200 writes) fall t1 writes behind, read r <= 30 events, fall behind until the last write, then drain}; schedule points are driven by a handler in {no-op, PRNG delay at the legacy dequeue, hold the legacy dequeuing goroutine until the bus goroutine has offered the next event, hold 1 in 3 index rebuilds 0.2-2 ms between listing the log and publishing the view}; in every second case a colluding authorised writer also announces heads built on an entry of an identity without write access (that entry is refused by the merge, the writer's own entry above it is accepted). A lockstep sub-mode (writer waits for the subscriber's acknowledgement) makes the state at receipt stable so that the view can be compared with the replay. " +
 			"distinct = hash(store type, writes, batches, subscriber kinds and pacing, handler, observed interleaving signature at legacy.after-dequeue); non-trivial = >= 50 write events were delivered to >= 2 subscribers and, for stalling subscribers, the overflow path was taken (legacy.after-dequeue arrivals > 0)",
 		Assumptions: []string{"unique entry hashes identify events", "writes are issued sequentially by one goroutine (concurrent writers are C17)"},
 		Cases:       c16Cases,
@@ -29,7 +30,7 @@ func init() {
 		MinDistinct: map[string]int{"quick": 20, "thorough": 150},
 		Batch:       6,
 		CaseTimeout: 240 * time.Second,
-		Explain:     "oracle: (1) each successful local write <-> exactly one EventWrite carrying that entry and this database's address; every remotely merged entry appears in some EventReplicated; (2) at receipt the log contains the announced entries (and in lockstep mode the view equals the replay of the log); (3) every subscriber sees the write events in write order, none missing, none twice.",
+		Explain:     "oracle: (1) each successful local write <-> exactly one EventWrite carrying that entry and this database's address; every remotely merged entry appears in some EventReplicated; (2) at receipt the log contains the announced entries (and in lockstep mode the view equals the replay of the log); (3) every subscriber sees the write events in write order, none missing, none twice; (4) no EventReplicated announces an entry of a refused log.",
 	})
 }
 
@@ -40,11 +41,11 @@ func c16Cases(tier string, seed int64) []fw.Case {
 	}
 	rng := rand.New(rand.NewSource(seed*533000389 + 16))
 	var out []fw.Case
-	handlers := []string{"none", "delay", "hold"}
+	handlers := []string{"none", "delay", "hold", "index-hold"}
 	for i := 0; i < n; i++ {
 		out = append(out, fw.Case{Idx: i, Seed: rng.Int63(), P: map[string]interface{}{
-			"type": storeTypes[i%3], "writes": 50 + rng.Intn(200), "batches": 5 + rng.Intn(12), "handler": handlers[i%3], "lockstep": i%5 == 4,
-			"nbus": 1 + rng.Intn(2), "nlegacy": 1 + rng.Intn(3),
+			"type": storeTypes[i%3], "writes": 50 + rng.Intn(350), "batches": 5 + rng.Intn(12), "handler": handlers[i%4], "lockstep": i%5 == 4,
+			"nbus": 1 + rng.Intn(2), "nlegacy": 1 + rng.Intn(3), "poison": i%2 == 1,
 		}})
 	}
 	return out
@@ -60,6 +61,12 @@ type c16Sub struct {
 	ack     chan string
 	n       int64
 	stalled int32
+	// deep-stall: stall until t1 writes were issued, read r events, stall until every write was issued
+	written *int64
+	t1, r   int64
+	total   int64
+	phase   int
+	readB   int64
 }
 
 func (s *c16Sub) fail(key, what string) {
@@ -129,6 +136,27 @@ func (s *c16Sub) pace(rng *rand.Rand, stop <-chan struct{}) {
 			case <-stop:
 			}
 			atomic.StoreInt32(&s.stalled, 0)
+		}
+	case "deep-stall":
+		wait := func(target int64) {
+			for atomic.LoadInt64(s.written) < target {
+				select {
+				case <-stop:
+					return
+				case <-time.After(200 * time.Microsecond):
+				}
+			}
+		}
+		switch s.phase {
+		case 0:
+			s.phase = 1
+			wait(s.t1)
+			s.readB = atomic.LoadInt64(&s.n)
+		case 1:
+			if atomic.LoadInt64(&s.n)-s.readB >= s.r {
+				s.phase = 2
+				wait(s.total)
+			}
 		}
 	case "one-then-stall":
 		if atomic.LoadInt64(&s.n)%25 == 3 {
@@ -202,6 +230,31 @@ func c16Run(c fw.Case) fw.Verdict {
 				time.Sleep(50 * time.Microsecond)
 			}
 		})
+	case "index-hold":
+		// hold some index rebuilds between listing the log and publishing the view: a write or a merge
+		// that overlaps the rebuild must still not be announced before the view reflects it
+		hrng := rand.New(rand.NewSource(c.Seed + 6))
+		var hm sync.Mutex
+		e.H.SetPoint("index.after-values", func(string, []interface{}) {
+			hm.Lock()
+			d := 0
+			if hrng.Intn(3) == 0 {
+				d = 200 + hrng.Intn(1800)
+			}
+			hm.Unlock()
+			if d > 0 {
+				atomic.AddInt64(&holds, 1)
+				time.Sleep(time.Duration(d) * time.Microsecond)
+			}
+		})
+	}
+	var written int64
+	poison := c.Bool("poison")
+	var X *Adv
+	if poison {
+		if X, err = NewAdv(e.W, "x"); err != nil {
+			return fw.Verdict{Status: fw.Inconclusive, What: "adversary: " + err.Error()}
+		}
 	}
 
 	ctx, cancel := context.WithCancel(bg)
@@ -262,6 +315,13 @@ func c16Run(c fw.Case) fw.Verdict {
 		} else {
 			ch = sP.Subscribe(ctx)
 		}
+		if !lockstep && nw >= 200 && i == c.Int("nlegacy", 1)-1 {
+			// this one falls far behind, reads a little, falls behind again: the emitter's backlog
+			// grows while its front is not at the start
+			s.pacing = "deep-stall"
+			s.written, s.total = &written, int64(nw)
+			s.t1, s.r = int64(20+rng.Intn(nw-180)), int64(1+rng.Intn(30))
+		}
 		srng := rand.New(rand.NewSource(c.Seed + int64(i) + 200))
 		wg.Add(1)
 		go func() {
@@ -274,7 +334,7 @@ func c16Run(c fw.Case) fw.Verdict {
 	}
 
 	// workload: sequential writes on P, batches merged from O
-	var acked []string
+	var acked, poisoned []string
 	remote := map[string]bool{}
 	batchEvery := nw / (nb + 1)
 	if batchEvery == 0 {
@@ -288,6 +348,7 @@ func c16Run(c fw.Case) fw.Verdict {
 		}
 		h := op.GetEntry().GetHash().String()
 		acked = append(acked, h)
+		atomic.AddInt64(&written, 1)
 		if lockstep {
 			for _, s := range subs {
 				select {
@@ -308,6 +369,24 @@ func c16Run(c fw.Case) fw.Verdict {
 					return fw.Verdict{Status: fw.Inconclusive, What: "remote write: " + err.Error()}
 				}
 				remote[rop.GetEntry().GetHash().String()] = true
+			}
+			if poison && k%2 == 1 {
+				// a colluding authorised writer announces a head of its own built on an entry of an
+				// identity without write access: that entry is refused by the merge and must not be
+				// announced
+				xe, err := X.Forge(fNonWriter, db.Addr, opPayload(typ, 5000+i, fmt.Sprintf("px%d", i)), nil, nil, 100000+2*i, nil)
+				if err != nil {
+					return fw.Verdict{Status: fw.Inconclusive, What: "forge: " + err.Error()}
+				}
+				oe, err := HonestEntry(O, db.Addr, opPayload(typ, 6000+i, fmt.Sprintf("po%d", i)), []cid.Cid{xe.Hash}, nil, 100001+2*i)
+				if err != nil {
+					return fw.Verdict{Status: fw.Inconclusive, What: "forge: " + err.Error()}
+				}
+				// the replicator fetches and merges entry by entry: the writer's own entry is accepted (and
+				// must be announced), the entry below it is refused
+				poisoned = append(poisoned, xe.Hash.String())
+				remote[oe.Hash.String()] = true
+				e.W.InjectPub(O, P, db.Addr, HeadsMsg(db.Addr, oe))
 			}
 			// deliver O's announcements to P (and P's to O) now
 			e.W.DeliverAll()
@@ -395,7 +474,14 @@ func c16Run(c fw.Case) fw.Verdict {
 			}
 		}
 		v.Count("remote_entries_checked", int64(len(remote)))
+		for _, h := range poisoned {
+			if repl[h] {
+				return fw.Verdict{Status: fw.Violated, Key: "refused-entry-announced/" + subKind(s.name), NonTrivial: true, Sig: v.Sig, Counters: v.Counters,
+					What: fmt.Sprintf("%s: an EventReplicated announced %s, an entry the merge refused (its author has no write access)", s.name, short(h))}
+			}
+		}
 	}
+	v.Count("refused_entries_offered", int64(len(poisoned)))
 	v.Status = fw.Held
 	v.NonTrivial = len(acked) >= 50 && len(subs) >= 2
 	ps := []string{}
